@@ -49,6 +49,7 @@ def gen(tier: str, seed: int) -> list[Case]:
     for i in range(n):
         cfg.n_modules = (4, 9)
         cfg.n_decls = (5, 14)
+        cfg.docs = i % 2 == 0  # module, class and function docstrings (plain text) in every second package
         pkg = pg.random_pkg(rng, cfg)
         opts = (["-nc"] if i % 3 == 1 else []) + noise_opts(seed, PID, i)
         cases.append(Case(cid=f"c03-{i}", files=pg.render(pkg), opts=opts, meta={"pkg": pkg}, reach=REACH))
